@@ -4,6 +4,7 @@ package main
 
 import (
 	"fmt"
+	"os"
 	"go/token"
 	"go/types"
 	"strings"
@@ -123,11 +124,11 @@ func resolveUDP(p *Prog) *udpRoles {
 		if pkgOf(f) != "udp" {
 			continue
 		}
-		for _, cm := range commsOf(f) {
-			if cm.Dir == types.SendOnly && chanRole(cm.Chan) == "field "+r.LT+"."+r.acceptCh {
+		instrsOf(f, func(in ssa.Instruction) {
+			if lk, ok := in.(*ssa.Lookup); ok && isFieldLoad(lk.X, r.LT, r.conns) && lk.CommaOk {
 				r.getConn = f
 			}
-		}
+		})
 		instrsOf(f, func(in ssa.Instruction) {
 			if c, ok := in.(*ssa.Call); ok && c.Call.IsInvoke() && c.Call.Method.Name() == "Close" && isFieldLoad(c.Call.Value, r.LT, r.pConn) {
 				r.closer = f
@@ -135,20 +136,30 @@ func resolveUDP(p *Prog) *udpRoles {
 		})
 	}
 	if r.getConn == nil {
-		miss("no function sends on the accept backlog")
+		miss("no function looks remotes up in the connection table")
 		return r
 	}
 	if r.closer == nil {
 		miss("no function closes the shared socket")
 		return r
 	}
-	instrsOf(r.getConn, func(in ssa.Instruction) {
-		if c, ok := in.(*ssa.Call); ok {
-			if sc := c.Call.StaticCallee(); sc != nil && inModule(sc) && sc.Signature.Results().Len() == 1 && typeName(sc.Signature.Results().At(0).Type()) == "udp.Conn" {
+	for _, in := range findU(r.getConn, func(in ssa.Instruction) bool { _, ok := in.(*ssa.Call); return ok }) {
+		call := in.(*ssa.Call)
+		if sc := call.Call.StaticCallee(); sc != nil && inModule(sc) && sc.Signature.Results().Len() == 1 && typeName(sc.Signature.Results().At(0).Type()) == "udp.Conn" {
+			// the constructor is the one that allocates a Conn
+			alloc := false
+			instrsOf(sc, func(x ssa.Instruction) {
+				if a, ok := x.(*ssa.Alloc); ok {
+					if n, ok := a.Type().(*types.Pointer).Elem().(*types.Named); ok && typeName(n) == r.CT {
+						alloc = true
+					}
+				}
+			})
+			if alloc {
 				r.newConn = sc
 			}
 		}
-	})
+	}
 	cg := p.CG()
 	for _, e := range cg.In[r.getConn] {
 		r.dispatch = e.From
@@ -227,7 +238,7 @@ func (r *udpRoles) holdsConnLock(la *lockAnalysis, in ssa.Instruction) bool {
 }
 
 func (r *udpRoles) connLockUnlockBetween(a, b ssa.Instruction) bool {
-	re := reach(posAfter(a), func(in ssa.Instruction) bool { return in == b })
+	re := reachU(posAfter(a), func(in ssa.Instruction) bool { return in == b })
 	for in := range re {
 		if r.isConnLock(in, "unlock") && canReach(posAfter(in), b, nil) {
 			return true
@@ -237,7 +248,11 @@ func (r *udpRoles) connLockUnlockBetween(a, b ssa.Instruction) bool {
 }
 
 func udpAnchors(c *Ctx) *udpRoles {
+	setUnitExclude()
 	r := resolveUDP(c.P)
+	ex := []*ssa.Function{r.getConn, r.newConn, r.dispatch, r.readLoop, r.closer}
+	ex = append(ex, r.readers...)
+	setUnitExclude(ex...)
 	if len(r.problems) > 0 {
 		o := c.Obl("R0", "udp.listener", "anchors of the UDP listener are resolved", 1)
 		for _, pr := range r.problems {
@@ -250,7 +265,7 @@ func udpAnchors(c *Ctx) *udpRoles {
 
 // backlog send in getConn and its success / failure blocks
 func (r *udpRoles) backlogSend() (sel *ssa.Select, okBlk, failBlk *ssa.BasicBlock, sent ssa.Value) {
-	for _, cm := range commsOf(r.getConn) {
+	for _, cm := range commsOfU(r.getConn) {
 		if cm.Dir == types.SendOnly && chanRole(cm.Chan) == "field "+r.LT+"."+r.acceptCh && cm.Sel != nil {
 			sel = cm.Sel
 			sent = cm.Send
@@ -273,6 +288,12 @@ func runC12(c *Ctx) {
 	}
 	la := computeLocksets(p)
 	acceptRole := "field " + r.LT + "." + r.acceptCh
+	if os.Getenv("VCHECK_DEBUG") != "" {
+		for _, g := range unitOf(r.getConn) {
+			fmt.Println("DEBUG unit(getConn):", debugHelper(g))
+		}
+		fmt.Println("DEBUG getConn =", fname(r.getConn), "newConn =", fname(r.newConn))
+	}
 
 	// R1 who may close the socket
 	o := c.Obl("R1", r.LT+"."+r.pConn, "the shared socket is closed at exactly one site, after connWG.Wait() (count of listener + connections reached zero)", 1)
@@ -290,7 +311,7 @@ func runC12(c *Ctx) {
 			waits := findInstrs(f, func(x ssa.Instruction) bool { return r.isWG(x, "Wait") })
 			dom := false
 			for _, w := range waits {
-				if dominates(w, in) {
+				if domU(w, in) {
 					dom = true
 				}
 			}
@@ -313,10 +334,10 @@ func runC12(c *Ctx) {
 		for _, in := range findInstrs(f, func(x ssa.Instruction) bool { return r.isWG(x, "Done") }) {
 			o.Site(in.Pos(), "Done() in %s", fname(f))
 			switch {
-			case f == r.CCloseFn:
+			case isIn(f, r.CCloseFn):
 				// exactly once per closure execution
-			case f == r.LCloseFn:
-			case f == r.getConn:
+			case isIn(f, r.LCloseFn):
+			case isIn(f, r.getConn):
 				if failBlk == nil || !(failBlk == in.Block() || failBlk.Dominates(in.Block())) {
 					o.Fail(in.Pos(), "Done() in %s is not on the failed-enqueue edge", fname(f))
 				}
@@ -326,16 +347,16 @@ func runC12(c *Ctx) {
 		}
 	}
 	// Conn.Close: exactly one Done on every path
-	if m, inf := maxEvents(entryPos(r.CCloseFn), isReturn, func(in ssa.Instruction) int { return b2i(r.isWG(in, "Done")) }); m != 1 || inf {
+	if m, inf := maxEventsU(entryPos(r.CCloseFn), isReturn, func(in ssa.Instruction) int { return b2i(r.isWG(in, "Done")) }); m != 1 || inf {
 		o.Fail(r.CCloseFn.Pos(), "Conn.Close releases %d references (must be exactly one)", m)
 	}
-	if ok, bad := mustPass(entryPos(r.CCloseFn), isReturn, func(in ssa.Instruction) bool { return r.isWG(in, "Done") }); !ok {
+	if ok, bad := mustPassU(entryPos(r.CCloseFn), isReturn, func(in ssa.Instruction) bool { return r.isWG(in, "Done") }); !ok {
 		o.Fail(bad.Pos(), "Conn.Close can return without releasing its reference: the socket would never be closed")
 	}
 	// listener Close: own Done exactly once outside the drain loop, after the drain (dominated by the connLock critical section)
 	var ownDone []ssa.Instruction
 	var drainRecv *ssa.Select
-	for _, cm := range commsOf(r.LCloseFn) {
+	for _, cm := range commsOfU(r.LCloseFn) {
 		if cm.Dir == types.RecvOnly && chanRole(cm.Chan) == acceptRole && cm.Sel != nil {
 			drainRecv = cm.Sel
 		}
@@ -345,7 +366,7 @@ func runC12(c *Ctx) {
 		cs, _ := caseBlocks(drainRecv)
 		drainBlk = cs[0]
 	}
-	for _, in := range findInstrs(r.LCloseFn, func(x ssa.Instruction) bool { return r.isWG(x, "Done") }) {
+	for _, in := range findU(r.LCloseFn, func(x ssa.Instruction) bool { return r.isWG(x, "Done") }) {
 		if drainBlk != nil && (in.Block() == drainBlk || drainBlk.Dominates(in.Block())) {
 			continue
 		}
@@ -364,25 +385,25 @@ func runC12(c *Ctx) {
 		for _, in := range findInstrs(f, func(x ssa.Instruction) bool { return r.isWG(x, "Add") }) {
 			o.Site(in.Pos(), "Add in %s", fname(f))
 			switch {
-			case f == r.Listen:
+			case isIn(f, r.Listen):
 				base := in.(ssa.CallInstruction).Common().Args[0]
 				fr, _ := asFieldLoad(base)
 				if !isFreshBase(fr.Base) {
 					o.Fail(in.Pos(), "Add in the constructor is not on the freshly created listener")
 				}
 				for _, g := range findInstrs(f, func(x ssa.Instruction) bool { _, ok := x.(*ssa.Go); return ok }) {
-					if !dominates(in, g) {
+					if !domU(in, g) {
 						o.Fail(in.Pos(), "the listener's own reference is taken after a goroutine was started (the closer could see a zero count)")
 					}
 				}
-			case f == r.getConn:
+			case isIn(f, r.getConn):
 				if !r.holdsConnLock(la, in) {
 					o.Fail(in.Pos(), "Add in %s is not under connLock: unordered with listener Close releasing the last reference", fname(f))
 				}
 				if !hasFact(in, func(ft fact) bool { return r.acceptingFact(ft, true) }) {
 					o.Fail(in.Pos(), "Add in %s is not on the accepting edge", fname(f))
 				}
-				if sel == nil || !dominates(in, sel) {
+				if sel == nil || !domU(in, sel) {
 					o.Fail(in.Pos(), "the reference is not taken before the conn is offered to the backlog (Accept + Conn.Close could run first)")
 				}
 			default:
@@ -445,7 +466,7 @@ func runC12(c *Ctx) {
 				drained = ex
 			}
 		}
-		for in := range reach(blockStart(drainBlk), func(x ssa.Instruction) bool { return x == ssa.Instruction(drainRecv) }) {
+		for in := range reachU(blockStart(drainBlk), func(x ssa.Instruction) bool { return x == ssa.Instruction(drainRecv) }) {
 			if isCall(in, "builtin.delete") {
 				args := in.(ssa.CallInstruction).Common().Args
 				if isFieldLoad(args[0], r.LT, r.conns) && drained != nil && derivesFrom(args[1], func(v ssa.Value) bool { return v == drained }, true) {
@@ -471,22 +492,22 @@ func runC12(c *Ctx) {
 	}
 	if failBlk != nil {
 		okRel := false
-		for in := range reach(blockStart(failBlk), nil) {
+		for in := range reachU(blockStart(failBlk), nil) {
 			if r.isWG(in, "Done") {
 				okRel = true
 			}
 		}
 		o.Site(failBlk.Instrs[0].Pos(), "failed-enqueue edge")
-		adds := findInstrs(r.getConn, func(x ssa.Instruction) bool { return r.isWG(x, "Add") })
+		adds := findU(r.getConn, func(x ssa.Instruction) bool { return r.isWG(x, "Add") })
 		if len(adds) > 0 && !okRel {
 			o.Fail(failBlk.Instrs[0].Pos(), "when the backlog is full the reference taken for the new conn is leaked")
 		}
-		if ok, bad := mustPass(blockStart(failBlk), isReturn, func(in ssa.Instruction) bool { return len(adds) == 0 || r.isWG(in, "Done") }); !ok {
+		if ok, bad := mustPassU(blockStart(failBlk), isReturn, func(in ssa.Instruction) bool { return len(adds) == 0 || r.isWG(in, "Done") }); !ok {
 			o.Fail(bad.Pos(), "a path from the failed enqueue returns without giving the reference back")
 		}
 	}
 	// Accept: every path from receiving a conn returns that conn (or releases it)
-	for _, cm := range commsOf(r.Accept) {
+	for _, cm := range commsOfU(r.Accept) {
 		if cm.Dir != types.RecvOnly || chanRole(cm.Chan) != acceptRole {
 			continue
 		}
@@ -506,7 +527,7 @@ func runC12(c *Ctx) {
 				got = ex
 			}
 		}
-		for in := range reach(blockStart(blk), nil) {
+		for in := range reachU(blockStart(blk), nil) {
 			ret, ok := in.(*ssa.Return)
 			if !ok {
 				continue
@@ -516,11 +537,11 @@ func runC12(c *Ctx) {
 				continue
 			}
 			// otherwise the reference must have been released on the way
-			if ok2, _ := mustPass(blockStart(blk), func(x ssa.Instruction) bool { return x == in }, func(x ssa.Instruction) bool { return r.isWG(x, "Done") }); !ok2 {
+			if ok2, _ := mustPassU(blockStart(blk), func(x ssa.Instruction) bool { return x == in }, func(x ssa.Instruction) bool { return r.isWG(x, "Done") }); !ok2 {
 				o.Fail(ret.Pos(), "Accept takes a conn out of the backlog and then returns without handing it to the caller or releasing its reference: the socket is never closed")
 			}
 		}
-		for in := range reach(blockStart(blk), nil) {
+		for in := range reachU(blockStart(blk), nil) {
 			if r.isWG(in, "Add") {
 				o.Fail(in.Pos(), "Accept takes a reference after the conn left the backlog (unordered with Close)")
 			}
@@ -541,26 +562,26 @@ func runC12(c *Ctx) {
 		}
 		return isFieldLoad(in.(ssa.CallInstruction).Common().Args[0], r.LT, r.conns)
 	}
-	for _, in := range findInstrs(r.CCloseFn, isBufClose) {
+	for _, in := range findU(r.CCloseFn, isBufClose) {
 		o.Site(in.Pos(), "buffer.Close()")
 	}
-	for _, in := range findInstrs(r.CCloseFn, isUnreg) {
+	for _, in := range findU(r.CCloseFn, isUnreg) {
 		o.Site(in.Pos(), "delete(conns, key) held=%s", la.heldAt(in))
 		if !r.holdsConnLock(la, in) {
 			o.Fail(in.Pos(), "Conn.Close unregisters outside connLock")
 		}
 	}
-	if ok, bad := mustPass(entryPos(r.CCloseFn), isReturn, isBufClose); !ok {
+	if ok, bad := mustPassU(entryPos(r.CCloseFn), isReturn, isBufClose); !ok {
 		o.Fail(bad.Pos(), "Conn.Close can return without closing its buffer: pending reads stay blocked")
 	}
-	if ok, bad := mustPass(entryPos(r.CCloseFn), isReturn, isUnreg); !ok {
+	if ok, bad := mustPassU(entryPos(r.CCloseFn), isReturn, isUnreg); !ok {
 		o.Fail(bad.Pos(), "Conn.Close can return without unregistering the conn")
 	}
 
 	// R6 listener Close ordering
 	o = c.Obl("R6", fname(r.LClose), "listener Close: accepting cleared and doneCh closed (once) before connLock is taken for the drain; the own reference is released only after the drain's critical section; Accept fails once doneCh is closed", 4)
 	var store, closeDone, lock, unlock ssa.Instruction
-	instrsOf(r.LCloseFn, func(in ssa.Instruction) {
+	forEach(findU(r.LCloseFn, func(ssa.Instruction) bool { return true }), func(in ssa.Instruction) {
 		if isCall(in, "(*sync/atomic.Value).Store") {
 			if fr, ok := asFieldAddr(in.(ssa.CallInstruction).Common().Args[0]); ok && fr.Field == r.accepting {
 				store = in
@@ -576,8 +597,9 @@ func runC12(c *Ctx) {
 			unlock = in
 		}
 	})
-	if store == nil || closeDone == nil || lock == nil || unlock == nil {
-		o.Undecide("accepting.Store / close(doneCh) / connLock.Lock / Unlock not all found in listener Close")
+	_ = unlock
+	if store == nil || closeDone == nil || lock == nil {
+		o.Undecide("accepting.Store / close(doneCh) / connLock.Lock not all found in listener Close")
 	} else {
 		o.Site(store.Pos(), "accepting.Store(false)")
 		o.Site(closeDone.Pos(), "close(doneCh)")
@@ -585,19 +607,19 @@ func runC12(c *Ctx) {
 		if v, ok := store.(ssa.CallInstruction).Common().Args[1].(*ssa.MakeInterface); !ok || !isConstBool(v.X, false) {
 			o.Fail(store.Pos(), "listener Close does not store false into the accepting flag")
 		}
-		if !dominates(store, lock) {
+		if !domU(store, lock) {
 			o.Fail(store.Pos(), "the accepting flag is cleared after connLock was taken for the drain: a datagram can queue a conn after the drain")
 		}
 		for _, d := range ownDone {
 			o.Site(d.Pos(), "own Done()")
-			if !dominates(lock, d) {
+			if !domU(lock, d) {
 				o.Fail(d.Pos(), "the listener drops its own reference before taking connLock: the count can reach zero (socket closed) while the read loop is about to queue a conn that Accept will hand out")
 			}
-			if drainRecv != nil && !dominates(drainRecv, d) {
+			if drainRecv != nil && reachU(posAfter(d), nil)[drainRecv] {
 				o.Fail(d.Pos(), "the listener drops its own reference before the backlog is drained")
 			}
-			if r.holdsConnLock(la, d) == false && !dominates(unlock, d) {
-				o.Fail(d.Pos(), "own Done() is not ordered after the drain's critical section")
+			if r.holdsConnLock(la, d) {
+				o.Fail(d.Pos(), "own Done() is executed inside the drain's critical section")
 			}
 		}
 	}
@@ -609,14 +631,14 @@ func runC12(c *Ctx) {
 		for _, in := range findInstrs(f, func(x ssa.Instruction) bool {
 			return isCall(x, "builtin.close") && isFieldLoad(x.(ssa.CallInstruction).Common().Args[0], r.LT, r.doneCh)
 		}) {
-			if f != r.LCloseFn {
+			if !isIn(f, r.LCloseFn) {
 				o.Fail(in.Pos(), "doneCh is closed outside the sync.Once closure (double close panics)")
 			}
 		}
 	}
 	// Accept has a case on doneCh that returns an error
 	accOK := false
-	for _, cm := range commsOf(r.Accept) {
+	for _, cm := range commsOfU(r.Accept) {
 		if cm.Dir == types.RecvOnly && chanRole(cm.Chan) == "field "+r.LT+"."+r.doneCh && cm.Sel != nil {
 			cs, _ := caseBlocks(cm.Sel)
 			if blk := cs[cm.Index]; blk != nil {
@@ -692,10 +714,10 @@ func runC11(c *Ctx) {
 				if isFieldLoad(x.X, r.LT, r.conns) {
 					d, v := r.keyOrigin(x.Index)
 					o.Site(in.Pos(), "lookup key %s.String() in %s", d, fname(f))
-					if f == G {
-						lookupAddr = v
+					if isIn(f, G) {
+						lookupAddr = resolveParam(v)
 					}
-					if !strings.HasPrefix(d, "param ") || f != G {
+					if !(strings.HasPrefix(d, "param ") || strings.HasPrefix(d, "other")) || !isIn(f, G) {
 						o.Fail(in.Pos(), "table lookup in %s is not keyed by the datagram's remote address", fname(f))
 					}
 				}
@@ -703,8 +725,8 @@ func runC11(c *Ctx) {
 				if isFieldLoad(x.Map, r.LT, r.conns) {
 					d, v := r.keyOrigin(x.Key)
 					o.Site(in.Pos(), "insert key %s.String() in %s", d, fname(f))
-					insertAddr = v
-					if f != G {
+					insertAddr = resolveParam(v)
+					if !isIn(f, G) {
 						o.Fail(in.Pos(), "connections are registered outside %s", fname(G))
 					}
 				}
@@ -840,7 +862,7 @@ func runC11(c *Ctx) {
 	// R3 registration only on the success edge of the enqueue, after accepting + filter, under the lock
 	o = c.Obl("R3", fname(G), "a conn is registered only on the success edge of the non-blocking enqueue, after the accepting test and the accept filter's true edge, under connLock, and it is the conn that was queued", 1)
 	nIns := 0
-	instrsOf(G, func(in ssa.Instruction) {
+	forEach(findU(G, func(ssa.Instruction) bool { return true }), func(in ssa.Instruction) {
 		mu, ok := in.(*ssa.MapUpdate)
 		if !ok || !isFieldLoad(mu.Map, r.LT, r.conns) {
 			return
@@ -910,8 +932,27 @@ func runC11(c *Ctx) {
 		o.Fail(sel.Pos(), "the enqueue blocks (the read loop would stall under connLock)")
 	}
 	// a found conn is returned as is: the lookup's ok edge returns the looked-up conn
-	for _, v := range returnedValues(G, 0) {
+	var retLeaves []ssa.Value
+	var expand func(v ssa.Value, d int)
+	expand = func(v ssa.Value, d int) {
 		for _, e := range phiLeaves(v) {
+			if call, ok := e.(*ssa.Call); ok && d < unitDepth {
+				if h := helperCallee(call); h != nil {
+					for _, rv := range returnedValues(h, 0) {
+						expand(rv, d+1)
+					}
+					continue
+				}
+			}
+			retLeaves = append(retLeaves, e)
+		}
+	}
+	for _, v := range returnedValues(G, 0) {
+		expand(v, 0)
+	}
+	for _, v := range []int{0} {
+		_ = v
+		for _, e := range retLeaves {
 			if isNilConst(e) {
 				continue
 			}
@@ -982,7 +1023,7 @@ func runC11(c *Ctx) {
 	// R6 Conn.Close unregisters its own key under the lock; Accept returns the queued conn
 	o = c.Obl("R6", fname(r.CClose), "Conn.Close removes the connection's own key from the table under connLock (a later datagram creates a fresh connection)", 1)
 	found := false
-	instrsOf(r.CCloseFn, func(in ssa.Instruction) {
+	forEach(findU(r.CCloseFn, func(ssa.Instruction) bool { return true }), func(in ssa.Instruction) {
 		if isCall(in, "builtin.delete") && isFieldLoad(in.(ssa.CallInstruction).Common().Args[0], r.LT, r.conns) {
 			found = true
 			o.Site(in.Pos(), "delete under %s", la.heldAt(in))
@@ -999,7 +1040,7 @@ func runC11(c *Ctx) {
 	if !found {
 		o.Fail(r.CCloseFn.Pos(), "Conn.Close does not unregister the connection")
 	}
-	if ok, bad := mustPass(entryPos(r.CCloseFn), isReturn, func(in ssa.Instruction) bool {
+	if ok, bad := mustPassU(entryPos(r.CCloseFn), isReturn, func(in ssa.Instruction) bool {
 		return isCall(in, "builtin.delete") && isFieldLoad(in.(ssa.CallInstruction).Common().Args[0], r.LT, r.conns)
 	}); !ok {
 		o.Fail(bad.Pos(), "Conn.Close can return without unregistering")
